@@ -1063,6 +1063,13 @@ pub fn run<'tcx>(tcx: TyCtxt<'tcx>) {
         if let Some(d) = tcx.get_diagnostic_item(rustc_span::sym::Ord) {
             cmp_traits.push(d);
         }
+        // text rendering of the k-mer types ({:?} / {})
+        if let Some(d) = tcx.get_diagnostic_item(rustc_span::sym::Debug) {
+            cmp_traits.push(d);
+        }
+        if let Some(d) = tcx.get_diagnostic_item(rustc_span::sym::Display) {
+            cmp_traits.push(d);
+        }
         for (t, _) in ktypes.iter() {
             for tr in cmp_traits.iter() {
                 let n = tcx.generics_of(*tr).count();
